@@ -32,6 +32,7 @@ func init() {
 			{ID: "C14.R12", Text: "and it gets there at once: one synchronous call chain per event from the observer to the listener, nothing parked (same rule as C03.R1)", Run: c03r1},
 			{ID: "C14.R13", Text: "nothing flags a vBucket but an acknowledgement or the absorption of a non-document event: every call of the position writer is one of the known kinds — a snapshot marker or any other new caller is not (same rule as C01.R2)", Run: c01r2},
 			{ID: "C14.R14", Text: "a dirty mark is raised only by the position writer (and built by the checkpoint's Load): no other function stores into the dirty map", Run: dirtyMarkWriters},
+			{ID: "C14.R16", Text: "a move made for a reserved-key event never flags the vBucket, whatever the checkpoint type: the position writer marks ⇔ the position was stored ∧ dirty and under no other condition (same rule as C05.R2)", Run: c05r2},
 			{ID: "C14.R15", Text: "a document key is computed from the call, never remembered process-wide: no package-level variable is written after initialisation except the logger and the tracer (same rule as C18.R9)", Run: globalsFrozen},
 			{ID: "C14.R4", Text: "getCheckpointID: result = Prefix + groupName + const + Itoa(vbID); panics ⇔ groupName contains '.'", Run: c14r4},
 		},
@@ -270,7 +271,10 @@ func c14r3(c *Ctx, id string) {
 				for _, pw := range pws {
 					if e.Name == fname(pw) {
 						nw++
-						d := e.Args[len(e.Args)-1]
+						var d AV
+						if in := w.writerInputs(pw); in.dirty != nil {
+							d = effectVArg(e, pw, *in.dirty)
+						}
 						if b, ok := d.(avBool); !ok || b.b {
 							return "a library-internal key advances the position with dirty=" + avString(d) + ": checkpoint writes would trigger further checkpoint writes"
 						}
